@@ -1,19 +1,21 @@
 """Translator plugin for C04: regenerates Gen/ServerInitGen.v from the AST of
-ProtocolHandler._handle_initialize (server/protocol_handler.py).
+ProtocolHandler._handle_initialize (server/protocol_handler.py) by SYMBOLIC EXECUTION of a small Python subset.
 
-What is extracted (fail-closed: every statement of the function must be of a
-recognised kind, otherwise TranslateError and the Gen file is removed):
+The function body (and every helper method / module function of the same file it calls, inlined) is executed over symbolic
+values: the wire value read by params.get("protocolVersion", <default>), string / list constants (literals, module-level
+names bound once to a literal, SUPPORTED_VERSIONS / CURRENT_VERSION / MINIMUM_VERSION imported from protocol.types.versioning
+and regenerated into Gen/VersionsGen.v), conditionals over membership / equality tests of those, fresh dict literals, the
+session id returned by create_session, the response built by self.create_response, and opaque values that do not depend on
+the requested version.  Every path must end in `return (self.create_response(<id>, <fresh dict with "protocolVersion": V>),
+<the id create_session returned>)` with create_session called exactly once, its version argument being the same V.  The
+decision tree of V over the paths becomes the Gallina function server_decide : option str -> option str
+(Some s = a JSON string, None = any non-string JSON value, which is never a member of a list of strings).
 
-* the default literal of  protocol_version = params.get("protocolVersion", <default>)
-* the chain of   if protocol_version [not] in <LIST>: protocol_version = <EXPR> [else: ...]
-  statements that follow it, as a Gallina function  server_decide : option str -> option str
-  (Some s = a JSON string, None = any non-string JSON value, which is never a member of a list of strings)
-* the facts that the session is created with, and the result's "protocolVersion" member is, the variable
-  protocol_version AFTER the decision chain (otherwise: TranslateError)
-
-<LIST> / <EXPR> may only be SUPPORTED_VERSIONS / CURRENT_VERSION / MINIMUM_VERSION imported from
-protocol.types.versioning (they are regenerated into Gen/VersionsGen.v) or string literals.
+So renaming variables, extracting helpers, hoisting constants, early returns and conditional expressions translate to the
+same model; anything outside the subset (loops, try, with, item assignment into something that is not a fresh dict, a call
+of unknown code on the requested version, ...) raises TranslateError: fail-closed, the Gen file is removed.
 """
+
 from __future__ import annotations
 
 import ast
@@ -25,9 +27,6 @@ VAR = "protocol_version"
 LIST_CONSTS = {"SUPPORTED_VERSIONS"}
 STR_CONSTS = {"CURRENT_VERSION", "MINIMUM_VERSION"}
 
-PARAMS_TEMPLATE = ("Assign(targets=[Name(id='params', ctx=Store())], value=BoolOp(op=Or(), values=[Call(func=Name(id='getattr', "
-                   "ctx=Load()), args=[Name(id='message', ctx=Load()), Constant(value='params'), Constant(value=None)], "
-                   "keywords=[]), Dict(keys=[], values=[])]))")
 
 
 def _stores(node, name):
@@ -132,9 +131,407 @@ class Gen:
         return val
 
 
+
+# --------------------------------------------------------------------------- #
+# Symbolic values
+# --------------------------------------------------------------------------- #
+PV = ("pv",)                      # the requested version (after the default was applied)
+OPAQUE = ("opaque",)              # anything that does not depend on the requested version
+SELF, MESSAGE, PARAMS, SESSION, NONE = ("self",), ("message",), ("params",), ("session",), ("none",)
+MAX_DEPTH = 6
+MAX_PATHS = 64
+
+
+def is_ver(v):
+    return v == PV or v[0] in ("str", "cond")
+
+
+def depends(v):
+    if v == PV:
+        return True
+    if v[0] == "cond":
+        return True
+    if v[0] == "bool":
+        return True
+    if v[0] == "dict":
+        return any(depends(x) for x in v[1].values())
+    if v[0] in ("tuple", "resp"):
+        return any(depends(x) for x in v[1:] if isinstance(x, tuple)) or any(depends(x) for x in (v[1] if v[0] == "tuple" else []))
+    return False
+
+
+def emit(v) -> str:
+    """Gallina expression of type option str."""
+    if v == PV:
+        return VAR
+    if v[0] == "str":
+        return f"(Some {v[1]})"
+    if v[0] == "cond":
+        return f"(if {v[1]} then {emit(v[2])} else {emit(v[3])})"
+    raise T.TranslateError(f"not a version value: {v[0]}")
+
+
+class Path:
+    """State along one execution path."""
+
+    def __init__(self):
+        self.session_arg = None      # symbolic version handed to create_session
+        self.default = None          # Gallina text of the default of params.get("protocolVersion", ...)
+
+    def copy(self):
+        p = Path()
+        p.session_arg, p.default = self.session_arg, self.default
+        return p
+
+
+class Return(Exception):
+    pass
+
+
+class Sym:
+    def __init__(self, tree, cls):
+        self.g = Gen(tree)
+        self.tree = tree
+        self.cls = cls
+        self.methods = {n.name: n for n in cls.body if isinstance(n, (ast.FunctionDef, ast.AsyncFunctionDef))}
+        self.functions = {n.name: n for n in tree.body if isinstance(n, (ast.FunctionDef, ast.AsyncFunctionDef))}
+        self.consts = {}
+        counts = {}
+        for st in ast.walk(tree):
+            if isinstance(st, ast.Name) and isinstance(st.ctx, (ast.Store, ast.Del)):
+                counts[st.id] = counts.get(st.id, 0) + 1
+        for st in tree.body:
+            tgt = val = None
+            if isinstance(st, ast.Assign) and len(st.targets) == 1 and isinstance(st.targets[0], ast.Name):
+                tgt, val = st.targets[0].id, st.value
+            elif isinstance(st, ast.AnnAssign) and isinstance(st.target, ast.Name) and st.value is not None:
+                tgt, val = st.target.id, st.value
+            if tgt and isinstance(val, ast.Constant) and isinstance(val.value, str) and counts.get(tgt) == 1:
+                self.consts[tgt] = ("str", T.strlit(val.value))
+        self.leaves = []             # (Path, returned value)
+
+    # ------------------------------------------------------------------ expressions
+    def ev(self, node, env, path, depth):
+        if isinstance(node, ast.Await):
+            return self.ev(node.value, env, path, depth)
+        if isinstance(node, ast.Constant):
+            if isinstance(node.value, str):
+                return ("str", T.strlit(node.value))
+            if node.value is None:
+                return NONE
+            return OPAQUE
+        if isinstance(node, ast.Name):
+            if node.id in env:
+                return env[node.id]
+            n = self.g.const_name(node, STR_CONSTS)
+            if n:
+                return ("str", n)
+            n = self.g.const_name(node, LIST_CONSTS)
+            if n:
+                return ("list", n)
+            if node.id in self.consts:
+                return self.consts[node.id]
+            return OPAQUE
+        if isinstance(node, (ast.List, ast.Tuple, ast.Set)):
+            vals = [self.ev(e, env, path, depth) for e in node.elts]
+            if vals and all(v[0] == "str" for v in vals) and not isinstance(node, ast.Tuple):
+                return ("list", "[" + "; ".join(v[1] for v in vals) + "]")
+            if isinstance(node, ast.Tuple):
+                if vals and all(v[0] == "str" for v in vals) and not any(True for _ in []):
+                    pass
+                return ("tuple", vals)
+            if any(depends(v) for v in vals):
+                raise T.TranslateError("the requested version is put into a collection", node)
+            return OPAQUE
+        if isinstance(node, ast.Dict):
+            items = {}
+            for k, v in zip(node.keys, node.values):
+                val = self.ev(v, env, path, depth) if k is not None else OPAQUE
+                if k is None:
+                    if depends(self.ev(v, env, path, depth)):
+                        raise T.TranslateError("** of a version-dependent mapping", node)
+                    continue
+                if isinstance(k, ast.Constant) and isinstance(k.value, str):
+                    items[k.value] = val
+                elif depends(val):
+                    raise T.TranslateError("version-dependent value under a computed key", node)
+            return ("dict", items)
+        if isinstance(node, ast.IfExp):
+            t = self.test(node.test, env, path, depth)
+            a, b = self.ev(node.body, env, path, depth), self.ev(node.orelse, env, path, depth)
+            if t is None:
+                if a == b:
+                    return a
+                if depends(a) or depends(b):
+                    raise T.TranslateError("version-dependent value chosen by a test the translator cannot read", node)
+                return OPAQUE
+            if is_ver(a) and is_ver(b):
+                return ("cond", t, a, b)
+            raise T.TranslateError("conditional expression over the requested version with non-version branches", node)
+        if isinstance(node, ast.BoolOp) and isinstance(node.op, ast.Or) and len(node.values) == 2:
+            a = self.ev(node.values[0], env, path, depth)
+            b = self.ev(node.values[1], env, path, depth)
+            if a == PARAMS and b == ("dict", {}):
+                return PARAMS
+            if depends(a) or depends(b):
+                raise T.TranslateError("`or` over the requested version", node)
+            return OPAQUE
+        if isinstance(node, ast.Attribute):
+            base = self.ev(node.value, env, path, depth)
+            if depends(base):
+                raise T.TranslateError("attribute of a version-dependent value", node)
+            if base == SELF:
+                return ("selfattr", node.attr)
+            return OPAQUE
+        if isinstance(node, ast.Subscript):
+            base = self.ev(node.value, env, path, depth)
+            if base[0] == "list" and isinstance(node.slice, ast.Constant) and node.slice.value == 0 and not base[1].startswith("["):
+                return ("str", f"(hd [] {base[1]})")
+            if base == PARAMS and isinstance(node.slice, ast.Constant) and node.slice.value == "protocolVersion":
+                raise T.TranslateError("params['protocolVersion'] (raises when absent) is outside the subset", node)
+            if base[0] == "dict" and isinstance(node.slice, ast.Constant) and node.slice.value in base[1]:
+                return base[1][node.slice.value]
+            if depends(base) or depends(self.ev(node.slice, env, path, depth)):
+                raise T.TranslateError("subscript involving the requested version", node)
+            return OPAQUE
+        if isinstance(node, ast.Call):
+            return self.call(node, env, path, depth)
+        if isinstance(node, (ast.Compare, ast.UnaryOp, ast.BoolOp)):
+            t = self.test(node, env, path, depth)
+            return OPAQUE if t is None else ("bool", t)
+        if isinstance(node, ast.JoinedStr):
+            return OPAQUE            # only ever used for messages; a version built by an f-string is never in a list test
+        if isinstance(node, ast.NamedExpr):
+            raise T.TranslateError("assignment expression", node)
+        for sub in ast.walk(node):
+            if isinstance(sub, ast.Name) and sub.id in env and depends(env[sub.id]):
+                raise T.TranslateError(f"unsupported expression {type(node).__name__} over the requested version", node)
+        return OPAQUE
+
+    def test(self, node, env, path, depth):
+        """Gallina bool text, or None when the test does not involve the requested version."""
+        if isinstance(node, ast.UnaryOp) and isinstance(node.op, ast.Not):
+            t = self.test(node.operand, env, path, depth)
+            return None if t is None else f"(negb {t})"
+        if isinstance(node, ast.BoolOp):
+            ts = [self.test(v, env, path, depth) for v in node.values]
+            if all(t is None for t in ts):
+                return None
+            if any(t is None for t in ts):
+                raise T.TranslateError("test mixing the requested version with something the translator cannot read", node)
+            return "(" + (" && " if isinstance(node.op, ast.And) else " || ").join(ts) + ")"
+        if isinstance(node, ast.Compare) and len(node.ops) == 1:
+            left = self.ev(node.left, env, path, depth)
+            right = self.ev(node.comparators[0], env, path, depth)
+            op = node.ops[0]
+            if not depends(left) and not depends(right):
+                return None
+            if isinstance(op, (ast.In, ast.NotIn)) and is_ver(left) and right[0] == "list":
+                t = f"(pv_in {emit(left)} {right[1]})"
+                return t if isinstance(op, ast.In) else f"(negb {t})"
+            if isinstance(op, (ast.Eq, ast.NotEq)) and is_ver(left) and right[0] == "str":
+                t = f"(pv_eq {emit(left)} {right[1]})"
+                return t if isinstance(op, ast.Eq) else f"(negb {t})"
+            if isinstance(op, (ast.Eq, ast.NotEq)) and is_ver(right) and left[0] == "str":
+                t = f"(pv_eq {emit(right)} {left[1]})"
+                return t if isinstance(op, ast.Eq) else f"(negb {t})"
+            raise T.TranslateError("unsupported comparison involving the requested version", node)
+        if isinstance(node, ast.Call) and isinstance(node.func, ast.Name) and node.func.id == "isinstance" and len(node.args) == 2:
+            v = self.ev(node.args[0], env, path, depth)
+            if depends(v):
+                if is_ver(v) and isinstance(node.args[1], ast.Name) and node.args[1].id == "str":
+                    return f"(match {emit(v)} with Some _ => true | None => false end)"
+                raise T.TranslateError("isinstance test on the requested version other than `str`", node)
+            return None
+        v = self.ev(node, env, path, depth)
+        if v[0] == "bool":
+            return v[1]
+        if depends(v):
+            raise T.TranslateError("truth value of the requested version", node)
+        return None
+
+    def call(self, node, env, path, depth):
+        f = node.func
+        args = [self.ev(a, env, path, depth) for a in node.args if not isinstance(a, ast.Starred)]
+        kws = {k.arg: self.ev(k.value, env, path, depth) for k in node.keywords if k.arg}
+        if any(isinstance(a, ast.Starred) for a in node.args) or any(k.arg is None for k in node.keywords):
+            if any(depends(v) for v in args) or any(depends(v) for v in kws.values()):
+                raise T.TranslateError("star-arguments in a call that involves the requested version", node)
+            return OPAQUE
+        # getattr(message, "params", None)
+        if isinstance(f, ast.Name) and f.id == "getattr" and len(args) == 3 and args[0] == MESSAGE \
+                and isinstance(node.args[1], ast.Constant) and node.args[1].value == "params" and args[2] == NONE:
+            return PARAMS
+        if isinstance(f, ast.Attribute):
+            base = self.ev(f.value, env, path, depth)
+            if base == PARAMS and f.attr == "get" and node.args and isinstance(node.args[0], ast.Constant) \
+                    and node.args[0].value == "protocolVersion":
+                if kws or len(args) > 2:
+                    raise T.TranslateError("params.get('protocolVersion', ...) with unexpected arguments", node)
+                if len(args) == 2 and args[1] != NONE:
+                    if args[1][0] != "str":
+                        raise T.TranslateError("default of params.get('protocolVersion', ...) is not a string constant", node)
+                    d = f"(Some {args[1][1]})"
+                else:
+                    d = "None"       # absent behaves like a non-string (null)
+                if path.default is not None and path.default != d:
+                    raise T.TranslateError("protocolVersion is read twice with different defaults", node)
+                path.default = d
+                return PV
+            if f.attr == "create_session":
+                ver = kws.get("protocol_version", args[1] if len(args) >= 2 else None)
+                if ver is None or not is_ver(ver):
+                    raise T.TranslateError("create_session is not given a version the translator can follow", node)
+                if path.session_arg is not None:
+                    raise T.TranslateError("create_session is called twice on one path", node)
+                path.session_arg = ver
+                return SESSION
+            if base == SELF and f.attr == "create_response" and len(args) == 2 and not kws:
+                return ("resp", args[1])
+            target = None
+            if base == SELF and f.attr in self.methods:
+                target = (self.methods[f.attr], True)
+            elif isinstance(f.value, ast.Name) and f.value.id == self.cls.name and f.attr in self.methods:
+                target = (self.methods[f.attr], False)
+            if target:
+                return self.inline(target[0], args, kws, path, depth, node, bound=target[1])
+        if isinstance(f, ast.Name) and f.id in self.functions:
+            return self.inline(self.functions[f.id], args, kws, path, depth, node, bound=False)
+        if any(depends(v) for v in args) or any(depends(v) for v in kws.values()):
+            if isinstance(f, ast.Attribute) and f.attr in ("debug", "info", "warning", "error", "exception", "critical", "log"):
+                return OPAQUE        # logging the requested version changes nothing
+            raise T.TranslateError("the requested version is passed to code the translator cannot follow", node)
+        return OPAQUE
+
+    def inline(self, fn, args, kws, path, depth, node, bound):
+        if depth >= MAX_DEPTH:
+            raise T.TranslateError("helper calls nested too deeply", node)
+        static = any(isinstance(d, ast.Name) and d.id == "staticmethod" for d in fn.decorator_list)
+        other = [d for d in fn.decorator_list if not (isinstance(d, ast.Name) and d.id in ("staticmethod",))]
+        if other or fn.args.vararg or fn.args.kwarg or fn.args.posonlyargs:
+            raise T.TranslateError(f"helper {fn.name}: decorators / star parameters are outside the subset", fn)
+        names = [a.arg for a in fn.args.args]
+        env = {}
+        if fn.name in self.methods and self.methods[fn.name] is fn and not static:
+            if not names:
+                raise T.TranslateError(f"helper {fn.name}: method without self", fn)
+            env[names[0]] = SELF
+            names = names[1:]
+            if not bound:
+                args = args[1:]      # Class.method(self, ...)
+        if len(args) > len(names):
+            raise T.TranslateError(f"helper {fn.name}: too many arguments", node)
+        defaults = fn.args.defaults
+        for i, n in enumerate(names):
+            if i < len(args):
+                env[n] = args[i]
+            elif n in kws:
+                env[n] = kws[n]
+            else:
+                j = i - (len(names) - len(defaults))
+                if j < 0:
+                    raise T.TranslateError(f"helper {fn.name}: missing argument {n}", node)
+                env[n] = self.ev(defaults[j], {}, path, depth + 1)
+        for kw, d in zip(fn.args.kwonlyargs, fn.args.kw_defaults):
+            if kw.arg in kws:
+                env[kw.arg] = kws[kw.arg]
+            elif d is not None:
+                env[kw.arg] = self.ev(d, {}, path, depth + 1)
+            else:
+                raise T.TranslateError(f"helper {fn.name}: missing keyword argument {kw.arg}", node)
+        sub = path.copy()
+        rets = self.block(list(fn.body), env, sub, depth + 1)
+        # a helper is inlined as ONE value: its return tree folded into a conditional; what it did besides (reading the
+        # version, creating the session) must be the same on all of its paths
+        effects = {(lp.session_arg, lp.default) for lp in self.leaf_paths(rets)}
+        if len(effects) != 1:
+            raise T.TranslateError(f"helper {fn.name}: create_session / the read of protocolVersion differ between its paths", node)
+        path.session_arg, path.default = next(iter(effects))
+        return self.fold(rets, node)
+
+    def leaf_paths(self, tree):
+        if tree[0] == "leaf":
+            return [tree[2]]
+        return self.leaf_paths(tree[2]) + self.leaf_paths(tree[3])
+
+    def fold(self, tree, node):
+        if tree[0] == "leaf":
+            return tree[1]
+        _tag, t, a, b = tree
+        va, vb = self.fold(a, node), self.fold(b, node)
+        if t is None:
+            if va == vb:
+                return va
+            if depends(va) or depends(vb):
+                raise T.TranslateError("helper result depends on a test the translator cannot read", node)
+            return OPAQUE
+        if va == vb:
+            return va
+        if is_ver(va) and is_ver(vb):
+            return ("cond", t, va, vb)
+        if not depends(va) and not depends(vb):
+            return OPAQUE
+        raise T.TranslateError("helper returns version-dependent values of different shapes", node)
+
+    # ------------------------------------------------------------------ statements
+    def block(self, stmts, env, path, depth):
+        """Return tree: ("leaf", value) | ("if", test-or-None, tree, tree).  Side effects on `path` are only allowed
+        outside version-dependent branches (checked by the caller through path.session_arg bookkeeping)."""
+        env = dict(env)
+        for k, st in enumerate(stmts):
+            if T.is_docstring(st) or isinstance(st, ast.Pass):
+                continue
+            if T.is_log_call(st):
+                continue
+            if isinstance(st, ast.Return):
+                return ("leaf", NONE if st.value is None else self.ev(st.value, env, path, depth), path)
+            if isinstance(st, ast.Expr):
+                self.ev(st.value, env, path, depth)
+                continue
+            if isinstance(st, ast.AnnAssign):
+                if st.value is None:
+                    continue
+                st = ast.Assign(targets=[st.target], value=st.value, lineno=st.lineno)
+            if isinstance(st, ast.Assign):
+                val = self.ev(st.value, env, path, depth)
+                for tg in st.targets:
+                    if isinstance(tg, ast.Name):
+                        if tg.id in ("params", "message", "self") and env.get(tg.id) in (PARAMS, MESSAGE, SELF) and val != env.get(tg.id):
+                            raise T.TranslateError(f"{tg.id} is rebound", st)
+                        env[tg.id] = val
+                    elif isinstance(tg, ast.Tuple) and val[0] == "tuple" and len(val[1]) == len(tg.elts) \
+                            and all(isinstance(e, ast.Name) for e in tg.elts):
+                        for e, v in zip(tg.elts, val[1]):
+                            env[e.id] = v
+                    elif isinstance(tg, ast.Subscript) and isinstance(tg.value, ast.Name) and env.get(tg.value.id, OPAQUE)[0] == "dict" \
+                            and isinstance(tg.slice, ast.Constant) and isinstance(tg.slice.value, str):
+                        d = dict(env[tg.value.id][1])
+                        d[tg.slice.value] = val
+                        env[tg.value.id] = ("dict", d)
+                    else:
+                        if depends(val):
+                            raise T.TranslateError("the requested version is stored somewhere the translator cannot follow", st)
+                        for sub in ast.walk(tg):
+                            if isinstance(sub, ast.Name) and isinstance(sub.ctx, ast.Store):
+                                env[sub.id] = OPAQUE
+                        if isinstance(tg, ast.Subscript) and isinstance(tg.slice, ast.Constant) and tg.slice.value == "protocolVersion":
+                            raise T.TranslateError("item assignment to ['protocolVersion'] of something that is not a fresh dict", st)
+                continue
+            if isinstance(st, ast.If):
+                t = self.test(st.test, env, path, depth)
+                rest = stmts[k + 1:]
+                pa, pb = path.copy(), path.copy()
+                ta = self.block(list(st.body) + rest, env, pa, depth)
+                tb = self.block(list(st.orelse) + rest, env, pb, depth)
+                return ("if", t, ta, tb)
+            if isinstance(st, (ast.Raise, ast.Assert)):
+                raise T.TranslateError(f"{type(st).__name__} inside the initialize logic", st)
+            raise T.TranslateError(f"unsupported statement {type(st).__name__} inside the initialize logic", st)
+        return ("leaf", NONE, path)
+
+
 def gen_server_init() -> str:
     tree = T.read(PATH)
-    g = Gen(tree)
     classes = [n for n in tree.body if isinstance(n, ast.ClassDef) and n.name == "ProtocolHandler"]
     if len(classes) != 1:
         raise T.TranslateError("expected exactly one class ProtocolHandler")
@@ -160,94 +557,43 @@ def gen_server_init() -> str:
     if not routed:
         raise T.TranslateError("no registration of 'initialize' in _register_core_handlers", cls)
 
-    body = [s for s in fn.body if not T.is_log_call(s) and not T.is_docstring(s) and not isinstance(s, ast.Pass)]
-    if not body or ast.dump(body[0]) != PARAMS_TEMPLATE:
-        raise T.TranslateError("_handle_initialize: first statement is not `params = getattr(message, 'params', None) or {}`", fn)
-    default = None
-    lets = []            # Gallina right-hand sides of the successive bindings of protocol_version, in order
-    session_seen = result_seen = False
-    result_var = None
-    rest = body[1:]
-    stores = [k for k, st in enumerate(rest) if _stores(st, VAR)]
-    if not stores:
-        raise T.TranslateError("no `protocol_version = params.get('protocolVersion', ...)` found", fn)
-    last_store = stores[-1]
-    for k, st in enumerate(rest):
-        if _stores(st, "params") or _stores(st, "message"):
-            raise T.TranslateError("params/message rebound inside _handle_initialize", st)
-        is_pv_assign = (isinstance(st, ast.Assign) and len(st.targets) == 1 and isinstance(st.targets[0], ast.Name)
-                        and st.targets[0].id == VAR)
-        if k == stores[0]:
-            # the first binding must be the read from params
-            v = st.value if is_pv_assign else None
-            if not (isinstance(v, ast.Call) and not v.keywords and len(v.args) in (1, 2)
-                    and ast.dump(v.func) == "Attribute(value=Name(id='params', ctx=Load()), attr='get', ctx=Load())"
-                    and isinstance(v.args[0], ast.Constant) and v.args[0].value == "protocolVersion"):
-                raise T.TranslateError("protocol_version is not first bound by params.get('protocolVersion', <default>)", st)
-            if len(v.args) == 2 and not (isinstance(v.args[1], ast.Constant) and v.args[1].value is None):
-                default = f"(Some {g.str_expr(v.args[1])})"
-            else:
-                default = "None"      # params.get(k) / params.get(k, None): absent behaves like a non-string (null)
-            continue
-        if k < stores[0] and _loads(st, VAR):
-            raise T.TranslateError("protocol_version used before it is read from params", st)
-        if k in stores:
-            # a step of the decision chain
-            if isinstance(st, ast.If):
-                if _stores(st.test, VAR):
-                    raise T.TranslateError("assignment expression in a decision test", st)
-                lets.append(f"(if {g.test(st.test)} then {g.branch(st.body, st)} else {g.branch(st.orelse, st)})")
-            elif is_pv_assign:
-                lets.append(g.val_expr(st.value))
-            else:
-                raise T.TranslateError(f"protocol_version rebound by an unsupported statement {type(st).__name__}", st)
-            continue
-        # any other statement: straight-line only (no control flow that could skip the decision or return early)
-        if isinstance(st, ast.Return):
-            if st is not body[-1]:
-                raise T.TranslateError("early return in _handle_initialize", st)
-        elif not isinstance(st, (ast.Assign, ast.Expr)):
-            raise T.TranslateError(f"unsupported statement {type(st).__name__} in _handle_initialize", st)
-        if result_var is not None and (_stores(st, result_var) or (_loads(st, result_var) and not isinstance(st, ast.Return))):
-            raise T.TranslateError("the result dict is rebound or touched between its construction and the return", st)
-        # the two uses must be the variable itself and must come after its last binding
-        for n in ast.walk(st):
-            if isinstance(n, ast.Call) and isinstance(n.func, ast.Attribute) and n.func.attr == "create_session":
-                arg = None
-                if len(n.args) >= 2:
-                    arg = n.args[1]
-                for kw in n.keywords:
-                    if kw.arg == "protocol_version":
-                        arg = kw.value
-                if session_seen or arg is None or ast.dump(arg) != f"Name(id='{VAR}', ctx=Load())" or k < last_store:
-                    raise T.TranslateError("create_session is not called exactly once, after the decision, with the decided "
-                                           "protocol_version", n)
-                session_seen = True
-            if isinstance(n, ast.Dict):
-                for kk, v in zip(n.keys, n.values):
-                    if isinstance(kk, ast.Constant) and kk.value == "protocolVersion":
-                        if result_seen or ast.dump(v) != f"Name(id='{VAR}', ctx=Load())" or k < last_store:
-                            raise T.TranslateError("result['protocolVersion'] is not the decided protocol_version", n)
-                        if not (isinstance(st, ast.Assign) and len(st.targets) == 1 and isinstance(st.targets[0], ast.Name)
-                                and st.value is n):
-                            raise T.TranslateError("the result dict is not bound to a plain name", st)
-                        result_var = st.targets[0].id
-                        result_seen = True
-            if isinstance(n, ast.Subscript) and isinstance(n.ctx, ast.Store) and isinstance(n.slice, ast.Constant) \
-                    and n.slice.value == "protocolVersion":
-                raise T.TranslateError("item assignment to ['protocolVersion']", n)
-        if isinstance(st, ast.Return):
-            want = (f"Tuple(elts=[Call(func=Attribute(value=Name(id='self', ctx=Load()), attr='create_response', ctx=Load()), "
-                    f"args=[Name(id='msg_id', ctx=Load()), Name(id='{result_var}', ctx=Load())], keywords=[]), "
-                    f"Name(id='new_session_id', ctx=Load())], ctx=Load())")
-            if st.value is None or ast.dump(st.value) != want:
-                raise T.TranslateError("return is not (self.create_response(msg_id, <result dict>), new_session_id)", st)
-    if default is None:
-        raise T.TranslateError("no `protocol_version = params.get('protocolVersion', ...)` found", fn)
-    if not (session_seen and result_seen):
-        raise T.TranslateError("create_session call or result['protocolVersion'] not found after the decision", fn)
-    if not isinstance(body[-1], ast.Return):
-        raise T.TranslateError("_handle_initialize does not end in a return", fn)
+    sym = Sym(tree, cls)
+    path = Path()
+    env = {"self": SELF, "message": MESSAGE, "session_id": OPAQUE}
+    rets = sym.block(list(fn.body), env, path, 0)
+
+    # every path: (create_response(_, {"protocolVersion": V, ...}), SESSION) with create_session(_, V)
+    defaults = set()
+
+    def leaf_version(tree_):
+        if tree_[0] == "leaf":
+            v, lp = tree_[1], tree_[2]
+            if not (v[0] == "tuple" and len(v[1]) == 2 and v[1][0][0] == "resp" and v[1][1] == SESSION):
+                raise T.TranslateError("a path of _handle_initialize does not return (self.create_response(id, result), "
+                                       "<the id create_session returned>)", fn)
+            d = v[1][0][1]
+            if d[0] != "dict" or "protocolVersion" not in d[1] or not is_ver(d[1]["protocolVersion"]):
+                raise T.TranslateError("the result is not a fresh dict whose 'protocolVersion' the translator can follow", fn)
+            if lp.default is None:
+                raise T.TranslateError("a path answers without params.get('protocolVersion', ...)", fn)
+            defaults.add(lp.default)
+            if lp.session_arg is None:
+                raise T.TranslateError("a path answers without calling create_session", fn)
+            if emit(lp.session_arg) != emit(d[1]["protocolVersion"]):
+                raise T.TranslateError("the version recorded in the session and the version answered are computed differently: "
+                                       f"{emit(lp.session_arg)} vs {emit(d[1]['protocolVersion'])}", fn)
+            return d[1]["protocolVersion"]
+        _tag, t, a, b = tree_
+        va, vb = leaf_version(a), leaf_version(b)
+        if va == vb:
+            return va
+        if t is None:
+            raise T.TranslateError("the answered version depends on a test the translator cannot read", fn)
+        return ("cond", t, va, vb)
+    answered = leaf_version(rets)
+    if len(defaults) != 1:
+        raise T.TranslateError("the default of params.get('protocolVersion', ...) differs between paths", fn)
+    default = next(iter(defaults))
 
     out = T.HEADER.format(src=PATH + " (ProtocolHandler._handle_initialize) by harness/translate_c04.py")
     out += "From Verif.Gen Require Import VersionsGen.\n\n"
@@ -256,12 +602,9 @@ def gen_server_init() -> str:
     out += "Definition pv_eq (v : option str) (s : str) : bool :=\n  match v with Some x => str_eqb x s | None => false end.\n\n"
     out += "(* params.get(\"protocolVersion\", <default>) when the member is absent *)\n"
     out += f"Definition server_default : option str := {default}.\n\n"
-    out += "(* the statements between reading protocol_version and using it *)\n"
-    out += f"Definition server_decide ({VAR} : option str) : option str :=\n"
-    for rhs in lets:
-        out += f"  let {VAR} := {rhs} in\n"
-    out += f"  {VAR}.\n\n"
-    out += "(* create_session(client_info, protocol_version) and result[\"protocolVersion\"] = protocol_version, both AFTER the decision *)\n"
+    out += "(* the version answered, as a function of the version read (symbolic execution of _handle_initialize and its helpers) *)\n"
+    out += f"Definition server_decide ({VAR} : option str) : option str :=\n  {emit(answered)}.\n\n"
+    out += "(* create_session(client_info, V) and result[\"protocolVersion\"] = V with the SAME V on every path *)\n"
     out += "Definition session_version_of (decided : option str) : option str := decided.\n"
     out += "Definition result_version_of (decided : option str) : option str := decided.\n"
     return out
